@@ -106,7 +106,16 @@ func TestVerifLoadReplay(t *testing.T) {
 			}
 		}
 		dir := map[string]string{"plain": "corp", "trailing": "corp/", "dot": "./corp", "dottrailing": "./corp/", "absolute": filepath.Join(root, "corp"),
-			"cwd": ".", "cwdslash": "./", "inner": "corp/.", "updown": "corp/../corp"}[v.Spelling]
+			"cwd": ".", "cwdslash": "./", "inner": "corp/.", "updown": "corp/../corp", "symlink": "corplink", "symlinktrailing": "corplink/"}[v.Spelling]
+		os.Remove(filepath.Join(root, "corplink"))
+		if strings.HasPrefix(v.Spelling, "symlink") {
+			if err := os.Symlink("corp", filepath.Join(root, "corplink")); err != nil {
+				return true // no symbolic links here: the spelling cannot be exercised
+			}
+		}
+		if v.Mode == "txtdir" {
+			os.MkdirAll(filepath.Join(root, "corp", "License", "x", "zz.txt"), 0755)
+		}
 		c := NewClassifier(0.8)
 		why := ""
 		load := func() {
@@ -237,5 +246,58 @@ func TestVerifLoadAssets(t *testing.T) {
 			}
 		}
 		out.Emit(map[string]interface{}{"kind": "assets", "spelling": sp, "docs": len(c.docs), "inputs": len(inputs), "diffs": diffs, "why": why})
+	}
+}
+
+// TestVerifLoadBig: corpus files are documents whatever their size -- a file of 1.3 MiB (rulers and blank lines in front of a
+// short text, so that matching stays cheap) loaded from disk against the same bytes given to AddContent; and the same
+// corpus reached through a symbolic link in the middle of the path.
+func TestVerifLoadBig(t *testing.T) {
+	out := vuOpenOut("VERIF_OUT")
+	defer out.Close()
+	root, err := ioutil.TempDir("", "verif-loadbig-")
+	if err != nil {
+		t.Fatal(err)
+	}
+	defer os.RemoveAll(root)
+	text := "the frobnicator may be used copied and distributed by anyone for any purpose provided that this notice stays with it\n"
+	big := []byte(strings.Repeat("----------------------------------------------------------------\n\n", 21000) + text)
+	os.MkdirAll(filepath.Join(root, "store", "corp", "License", "Big"), 0755)
+	os.MkdirAll(filepath.Join(root, "store", "corp", "License", "Small"), 0755)
+	ioutil.WriteFile(filepath.Join(root, "store", "corp", "License", "Big", "license.txt"), big, 0644)
+	small := []byte("permission to tinker with the gizmo is granted to whoever holds a copy of it without any warranty at all\n")
+	ioutil.WriteFile(filepath.Join(root, "store", "corp", "License", "Small", "license.txt"), small, 0644)
+	ref := NewClassifier(0.8)
+	ref.AddContent("License", "Big", "license.txt", big)
+	ref.AddContent("License", "Small", "license.txt", small)
+	inputs := [][]byte{[]byte("zzqxv qqzzk\n" + text + "xqzvv\n"), append([]byte("zzqxv\n"), small...), big}
+	dirs := map[string]string{"plain": filepath.Join(root, "store", "corp")}
+	if os.Symlink("store", filepath.Join(root, "link")) == nil {
+		dirs["through-a-link"] = filepath.Join(root, "link", "corp")
+	}
+	for name, dir := range dirs {
+		c := NewClassifier(0.8)
+		why := ""
+		func() {
+			defer func() {
+				if p := recover(); p != nil {
+					why = fmt.Sprintf("panic: %v", p)
+				}
+			}()
+			if e := c.LoadLicenses(dir); e != nil {
+				why = "error: " + e.Error()
+			}
+		}()
+		if why == "" {
+			if a, b := vuJS(ldKeys(c)), vuJS(ldKeys(ref)); a != b {
+				why = fmt.Sprintf("corpus keys %s, AddContent %s", a, b)
+			}
+			for _, in := range inputs {
+				if a, b := ldProject(c.Match(in)), ldProject(ref.Match(in)); a != b && why == "" {
+					why = fmt.Sprintf("Match differs: loaded %s, AddContent %s", a, b)
+				}
+			}
+		}
+		out.Emit(map[string]interface{}{"kind": "big", "spelling": name, "bytes": len(big), "why": why})
 	}
 }
